@@ -26,7 +26,7 @@ ENTRY = {
         "AGV.C06.expand_monotone",
         "AGV.C06.fixer_expanded_range",
     ],
-    "units": ["interactive", "rewrite_splice", "edit_range", "c06_cli"],
+    "units": ["interactive", "rewrite_splice", "edit_range", "c06_cli", "update_cli"],
     "trusted_base": [
         "modelled, not verified: process_diffs_interactive (accept-all), apply_rewrite, InteractivePrinter::process/rewrite_action, transform/rewrite.rs make_edit + joinBy branch, Replacer::get_replaced_range, Fixer::get_replaced_range, expand_start/expand_end, StopBy::find, NodeMatch::replace_by/make_edit, Diff::generate",
         "hypotheses of the range theorems checked on the implementation by oracle c06_range / c06_cli on every generated match: match length <= node length (C03), previous siblings start before / next siblings end after the node (tree-sitter contract), node offsets on char boundaries",
